@@ -27,6 +27,17 @@ type lockRef struct {
 	Name string `json:"name,omitempty"`
 }
 
+// newLockRef returns the "ref" member of a locking API request for the given
+// ref, or nil if there is no ref name to report.  The API requires a "name"
+// whenever "ref" is present, so a ref without a name is left out entirely.
+func newLockRef(ref *git.Ref) *lockRef {
+	name := ref.Refspec()
+	if len(name) == 0 {
+		return nil
+	}
+	return &lockRef{Name: name}
+}
+
 // LockRequest encapsulates the payload sent across the API when a client would
 // like to obtain a lock against a particular path on a given remote.
 type lockRequest struct {
@@ -115,7 +126,7 @@ func (c *httpLockClient) Unlock(ref *git.Ref, remote, id string, force bool) (*u
 	suffix := fmt.Sprintf("locks/%s/unlock", id)
 	req, err := c.NewRequest("POST", e, suffix, &unlockRequest{
 		Force: force,
-		Ref:   &lockRef{Name: ref.Refspec()},
+		Ref:   newLockRef(ref),
 	})
 	if err != nil {
 		return nil, 0, err
